@@ -232,6 +232,26 @@ def fam_applies(agg, h, method):
                 agg.violation(V(f"{method}.applies", "later-function-does-not-get-the-groups-values-in-row-order", case, want_groups, seen))
             else:
                 agg.outcomes["applies-agree"] += 1
+            # the same with the functions reading DIFFERENT columns (each gets its own column's groups), in both dict orders
+            ws = [None if x is None else x * 100 for x in vs][::-1]
+            want_w = [[ws[i] for i in rows] for _, rows in groups]
+            for order in ("v-first", "w-first"):
+                seen_v, seen_w = [], []
+                fv = lambda xs: (seen_v.append(list(xs)), 0)[1]
+                fw = lambda xs: (seen_w.append(list(xs)), 1)[1]
+                ap = {"fv": ("v", fv), "fw": ("w", fw)} if order == "v-first" else {"fw": ("w", fw), "fv": ("v", fv)}
+                agg.evals += 1; agg.transitions += 1; agg.compared += 1
+                c2 = dict(case, functions_read="different columns", order=order)
+                try:
+                    t = Table([Vector(list(ks), name="k0"), Vector(list(vs), name="v"), Vector(list(ws), name="w")])
+                    getattr(t, method)(over="k0", apply=ap)
+                except Exception as e:
+                    agg.violation(V(f"{method}.applies", "raises-" + type(e).__name__, c2, None, repr(e)[:100]))
+                    continue
+                if sorted(map(repr, seen_v)) != sorted(map(repr, want_groups)) or sorted(map(repr, seen_w)) != sorted(map(repr, want_w)):
+                    agg.violation(V(f"{method}.applies", "function-receives-another-columns-values", c2, [want_groups, want_w], [seen_v, seen_w]))
+                else:
+                    agg.outcomes["applies-agree"] += 1
         # one-shot iterables as arguments
         for form in ("generator", "map", "iter", "tuple"):
             for what in ("over", "sum_over", "both"):
@@ -256,7 +276,78 @@ def fam_applies(agg, h, method):
                     agg.outcomes["iterargs-agree"] += 1
 
 
-FAMILIES = {"grid": fam_grid, "floats": fam_floats, "patterns": fam_patterns, "applies": fam_applies}
+def fam_tuplekeys(agg, h, method):
+    """ONE key column whose values are tuples (year-month pairs, the empty tuple, nested tuples, None): a key value is reproduced
+    as it is, never unpacked; also composite keys one of whose components is a tuple"""
+    from serif import Table, Vector
+    keysets = [[(2023, 1), (2023, 2), (2023, 1), (2024, 1)], [(), (1,), (), (1,)], [(1, (2, 3)), (1, (2, 4)), (1, (2, 3))], [(1, 2), None, (1, 2), None], [("a", "b"), ("a",), ("a", "b")]]
+    for ks in keysets:
+        n = len(ks)
+        vals = [None if i == 2 else i + 1 for i in range(n)]
+        for nkeys in (1, 2):
+            keys = [(k,) for k in ks] if nkeys == 1 else [(k, i % 2) for i, k in enumerate(ks)]
+            for form in ("name", "external"):
+                agg.evals += 1; agg.transitions += 1; agg.states += 1; agg.nontrivial += 1; agg.compared += 1
+                menu = {"sum": ["v"], "count": ["v"], "max": ["v"]}
+                case = {"family": "tuple-valued keys", "keys": [repr(k) for k in keys], "values": vals, "form": form, "method": method}
+                try:
+                    kcols = [Vector([k[j] for k in keys], name=f"k{j}") for j in range(nkeys)]
+                    t = Table((kcols if form == "name" else []) + [Vector(list(vals), name="v")])
+                    over = [f"k{j}" for j in range(nkeys)] if form == "name" else [Vector([k[j] for k in keys]) for j in range(nkeys)]
+                    res = getattr(t, method)(over=over if nkeys > 1 else over[0], sum_over="v", count_over="v", max_over="v")
+                except Exception as e:
+                    agg.violation(V(f"{method}.tuplekeys", "raises-" + type(e).__name__, case, None, repr(e)[:100]))
+                    continue
+                h.update(repr([list(map(repr, c._underlying)) for c in res._underlying]).encode())
+                if (judge_aggregate if method == "aggregate" else judge_window)(agg, f"{method}.tuplekeys", case, res, keys, list(vals), menu, nkeys):
+                    agg.outcomes["tuplekeys-agree"] += 1
+
+
+def fam_calls(agg, h, method):
+    """two calls on the SAME table object with related key lists (the other order, a key twice, a sub-list, external vectors that
+    are the table's own columns): the second answer is the answer a freshly built table gives"""
+    from serif import Table, Vector
+    data = {"a": ["x", "y", "x", "y", "x"], "b": [1, 1, 2, 2, 1], "v": [10, 20, None, 40, 50]}
+    overs = [["a", "b"], ["b", "a"], ["a"], ["b"], ["a", "a"], ["b", "a", "b"]]
+    kws = [dict(sum_over="v"), dict(count_over="v", max_over="v")]
+    for o1 in overs:
+        for o2 in overs:
+            for kw1 in kws:
+                for kw2 in kws:
+                    for form in ("name", "column"):
+                        agg.evals += 1; agg.transitions += 3; agg.states += 1; agg.nontrivial += 1; agg.compared += 1
+                        case = {"family": "two calls on the same table", "first_over": o1, "second_over": o2, "first": sorted(kw1), "second": sorted(kw2), "form": form, "method": method}
+
+                        def ov(t, o):
+                            r = list(o) if form == "name" else [t[n_] for n_ in o]
+                            return r if len(r) > 1 else r[0]
+                        try:
+                            t = Table({k: list(v) for k, v in data.items()})
+                            try:
+                                getattr(t, method)(over=ov(t, o1), **kw1)
+                            except Exception:
+                                pass
+                            try:
+                                got = getattr(t, method)(over=ov(t, o2), **kw2)
+                                got = [(c._name, [repr(x) for x in c._underlying]) for c in got._underlying]
+                            except Exception as e:
+                                got = "raises-" + type(e).__name__
+                            f = Table({k: list(v) for k, v in data.items()})
+                            try:
+                                want = getattr(f, method)(over=ov(f, o2), **kw2)
+                                want = [(c._name, [repr(x) for x in c._underlying]) for c in want._underlying]
+                            except Exception as e:
+                                want = "raises-" + type(e).__name__
+                        except Exception as e:
+                            agg.violation(V(f"{method}.calls", "raises-" + type(e).__name__, case, None, repr(e)[:100]))
+                            continue
+                        if got != want:
+                            agg.violation(V(f"{method}.calls", "second-call-differs-from-a-fresh-table", case, want, got))
+                        else:
+                            agg.outcomes["calls-agree"] += 1
+
+
+FAMILIES = {"grid": fam_grid, "floats": fam_floats, "patterns": fam_patterns, "applies": fam_applies, "tuplekeys": fam_tuplekeys, "calls": fam_calls}
 
 
 def run_extra_unit(unit, method):
